@@ -37,7 +37,8 @@ def patterns_for(tree_files):
         d = os.path.dirname(f)
         v = [f, "/" + f, base, "*" + ext, "**/" + base]
         if d:
-            v += [d + "/", d.split("/")[0] + "/", d + "/*" + ext]
+            top = d.split("/")[0]
+            v += [d + "/", top + "/", d + "/*" + ext, "/" + top + "/", "/" + d + "/", os.path.basename(d) + "/", "/" + os.path.basename(d) + "/"]
         return v
 
     if not files:
@@ -53,6 +54,20 @@ def case_strategy():
     @st.composite
     def case(draw):
         c = draw(gen_cb.codebases(min_platforms=1, ext_headers=True, header_bias=True))
+        # a multi-pass header without include guard, included twice by a compiled file: its second
+        # inclusion defines the macro the includer then tests.  It lives where it can be excluded
+        # (or outside the root).
+        srcs = sorted(n for n in c["tree"] if not n.endswith((".h", ".hpp")) and not n.startswith(".."))
+        if srcs and draw(st.booleans()):
+            where = draw(st.sampled_from(["gen", "../ext", os.path.dirname(srcs[0]) or "gen"]))
+            mp = where + "/mp.h"
+            c["tree"][mp] = {"items": [["chain", [["ifdef", "MP_SEL", [["undef", "MP_OUT"], ["define", "MP_OUT", "1"], ["code", 1]]]], [["define", "MP_SEL", ""], ["code", 1]]]], "style": [0]}
+            host = draw(st.sampled_from(srcs))
+            sp = os.path.relpath(mp, os.path.dirname(host) or ".")
+            c["tree"][host]["items"] = [["include", "quote", sp], ["include", "quote", sp], ["chain", [["if", ["cmp", "MP_OUT", "==", 1], [["code", 2]]]], [["code", 1]]]] + c["tree"][host]["items"]
+            for cmds in c["platforms"].values():
+                if cmds and draw(st.booleans()):
+                    cmds[0]["file"] = host
         c["excludes"] = draw(patterns_for(list(c["tree"]) + list(c.get("extra", {}))))
         return c
 
@@ -115,6 +130,12 @@ def check_case(case, res: Result, cli=False):
             if rE[f][2] != r0[f][2]:
                 diff = {str(l): [sorted(r0[f][2].get(l, [])), sorted(rE[f][2].get(l, []))] for l in set(r0[f][2]) | set(rE[f][2]) if r0[f][2].get(l) != rE[f][2].get(l)}
                 vs.append(make_violation("survivor-attribution-changed", cj, {"file": f, "line -> [without, with exclusion]": diff}, "differs"))
+                break
+        # enumeration and membership of the excluded code base must agree on every file
+        for f in sorted(r0):
+            member = os.path.join(root, f) in cbE
+            if member != (f in rE):
+                vs.append(make_violation("iteration-disagrees-with-membership", cj, {"file": f, "member": member}, {"listed": f in rE}))
                 break
         removed = sorted(set(r0) - set(rE))
         expect_diff = collections.Counter()
